@@ -446,22 +446,23 @@ htp_status_t htp_connp_RES_BODY_CHUNKED_LENGTH(htp_connp_t *connp) {
                 continue;
             }
             if (connp->out_chunked_length < 0) {
-                // reset out_current_read_offset so htp_connp_RES_BODY_IDENTITY_STREAM_CLOSE
-                // doesn't miss the first bytes
-
-                if (len > (size_t)connp->out_current_read_offset) {
-                    connp->out_current_read_offset = 0;
-                } else {
-                    connp->out_current_read_offset -= len;
-                }
-
+                // Not chunked after all: the body runs until the stream is closed,
+                // and the line just read is its beginning. Deliver that line here
+                // (part of it may only exist in the line buffer) instead of rewinding
+                // into the current chunk, so that no byte is counted or delivered twice.
                 connp->out_state = htp_connp_RES_BODY_IDENTITY_STREAM_CLOSE;
                 connp->out_tx->response_transfer_coding = HTP_CODING_IDENTITY;
 
                 htp_log(connp, HTP_LOG_MARK, HTP_LOG_ERROR, 0,
                         "Response chunk encoding: Invalid chunk length: %"PRId64"",
                         connp->out_chunked_length);
-                return HTP_OK;
+
+                // (Body data is counted where it is processed; take back the
+                // count made above for what was thought to be a chunk length line.)
+                connp->out_tx->response_message_len -= len;
+                htp_status_t rc = htp_tx_res_process_body_data_ex(connp->out_tx, data, len);
+                htp_connp_res_clear_buffer(connp);
+                return rc;
             }
             htp_connp_res_clear_buffer(connp);
 
